@@ -7,9 +7,9 @@
           25 = TemplateModel.get_waveforms is not the window (integration route): with a store holding the
                queried ids, the scaled window on the stored channels (as 24); otherwise, with raw data, the
                windows at spike_samples[spike_ids] (as 21)
-          26 = C03_iter_any_order (stage 3; spike vector NOT sorted -- outside the statement, kept to mark the
-               boundary): the exported file holds every spike's window x factor exactly once, chunk by chunk in
-               the vector's order (by_chunk); shape/dtype are judged by 22
+          (stage 3: export_waveforms with a spike vector that is NOT sorted is outside the statement; such cases
+           mark the boundary and are judged by equality with the model only -- code 1 --, like look-ups with a
+           repeated channel: the file holds the windows chunk by chunk in the vector's order, C03_iter_any_order)
           27 = C03_npy_writer / C03_npy_writer_iff (stage 3; NpyWriter used directly with an arbitrary sequence of
                chunks): when the element count equals the declared shape and every chunk has the declared dtype,
                the file loads (np.load, plain and mmap) with the declared shape/dtype and holds the appended
@@ -288,9 +288,14 @@ Fixpoint check_obs (i : input) (o : observed) : list Z :=
                                 opt_waves_eqb (np_load f) arr
                     | None => false
                     end) ++
-            flag 22 (dtype_eqb dt F64 && export_shape_b spikes n w shape) ++
-            flag 26 (export_spec_b (scaleZ f2) (gen_data nr nc) n (by_chunk chunks spikes) arr)
-        | _ => [1; 22; 26]
+            (* the model's file IS the by_chunk order (C03_iter_any_order); re-checked here so that a change of
+               the model alone cannot go unnoticed *)
+            flag 3 (match model_export nr nc ch spikes n w k f2 with
+                    | Some f => opt_waves_eqb (np_load f)
+                                  (scaled_windows 0 (scaleZ f2) (gen_data nr nc) n (by_chunk chunks spikes))
+                    | None => false
+                    end)
+        | _ => [1]
         end
       end
   | InNpy shape d cs =>
